@@ -314,7 +314,7 @@ func ghostSort(s string) string {
 		return "Str"
 	case "iface":
 		return "Iface"
-	case "slice":
+	case "slice", "bytes":
 		return "Slice"
 	}
 	panic(engineErr("bad ghost sort " + s))
